@@ -232,3 +232,97 @@ package graph
 //@   loop 2
 //@     invariant 1 <= i && len(degrees) == n && n > 0
 //@     decreases n - i
+
+// ---- text decoders (C08): total on every string whose declared size is <= 4096
+
+//@ pred g6prefix(s string) = len(s) >= 10 && s[0] == 62 && s[1] == 62 && s[2] == 103 && s[3] == 114 && s[4] == 97 && s[5] == 112 && s[6] == 104 && s[7] == 54 && s[8] == 60 && s[9] == 60
+// the size header N(n) read at offset o (0 when it is missing or incomplete)
+//@ spec hdrN(s string, o int) int = (len(s) <= o ? 0 : (s[o] != 126 ? s[o] - 63 : (len(s) < o + 4 ? 0 : (s[o+1] != 126 ? (s[o+1]-63)*4096 + (s[o+2]-63)*64 + (s[o+3]-63) : (len(s) < o + 8 ? 0 : (s[o+2]-63)*1073741824 + (s[o+3]-63)*16777216 + (s[o+4]-63)*262144 + (s[o+5]-63)*4096 + (s[o+6]-63)*64 + (s[o+7]-63))))))
+
+// number of bytes of the size header at offset o, and bit p of the body that starts at offset b
+//@ spec g6hdrLen(s string, o int) int = (len(s) <= o ? 0 : (s[o] != 126 ? 1 : (len(s) < o + 4 ? 0 : (s[o+1] != 126 ? 4 : 8))))
+//@ spec g6bit(s string, b int, p int) int = ((s[b + p/6] - 63) / pow2(5 - p%6)) % 2
+
+//@ lemma mulSmall(a int, b int)
+//@   requires 0 <= a && a <= 4096 && 0 <= b && b <= 4096
+//@   ensures 0 <= a * b && a * b <= 16777216
+//@   by smt
+
+//@ func Graph6Decode
+//@   requires hdrN(s, (g6prefix(s) ? 10 : 0)) <= 4096
+//@   ensures result1 != nil || (sizesDense(result0) && result0.NumberOfVertices == hdrN(s, (g6prefix(s) ? 10 : 0)))
+//@   ensures result1 == nil ==> forall p in 0..tri(result0.NumberOfVertices): result0.Edges[p] == g6bit(s, (g6prefix(s) ? 10 : 0) + g6hdrLen(s, (g6prefix(s) ? 10 : 0)), p)
+//@   opt lemmas=triMono
+//@   loop 1
+//@     invariant 0 <= i && i <= len(s) && sameslice(s, (g6prefix(old(s)) ? old(s)[10:] : old(s)))
+//@     invariant forall t in 0..i: 63 <= s[t] && s[t] <= 126
+//@     decreases len(s) - i
+//@   loop 2
+//@     invariant 0 <= j && j <= len(edges) && len(edges) == tri(n) && 0 <= n && n <= 4096 && 0 <= i && i + (tri(n) + 5) / 6 <= len(s) && sameslice(s, (g6prefix(old(s)) ? old(s)[10:] : old(s)))
+//@     invariant forall t in 0..len(s): 63 <= s[t] && s[t] <= 126
+//@     invariant forall t in 0..j: edges[t] == g6bit(s, i, t)
+//@     invariant i == g6hdrLen(s, 0)
+//@     use mulSmall(n, n-1)
+//@     decreases len(edges) - j
+
+// ---- sparse representation (safety level): sizes, sorted in-range neighbour lists
+//@ pred sortedInts(s []int) = forall i in 0..len(s): forall j in i+1..len(s): s[i] < s[j]
+//@ pred wfSparse(g *SparseGraph) = 0 <= g.NumberOfVertices && g.NumberOfVertices <= 16777216 && len(g.Neighbourhoods) == g.NumberOfVertices && len(g.DegreeSequence) == g.NumberOfVertices && (forall v in 0..g.NumberOfVertices: sortedInts(g.Neighbourhoods[v]) && (forall k in 0..len(g.Neighbourhoods[v]): 0 <= g.Neighbourhoods[v][k] && g.Neighbourhoods[v][k] < g.NumberOfVertices))
+
+//@ func NewSparse
+//@   requires 0 <= n && n <= 16777216 && neighbourhoods == nil
+//@   ensures fresh(result) && wfSparse(result) && result.NumberOfVertices == n && fresh(result.Neighbourhoods) && fresh(result.DegreeSequence)
+//@   ensures forall v in 0..n: len(result.Neighbourhoods[v]) == 0
+//@   opt wrapcounters=NumberOfEdges
+//@   loop 1
+//@     invariant -1 <= rangeindex && (rangeindex < len(neighbourhoods) || (len(neighbourhoods) == 0 && rangeindex == -1)) && len(neighbourhoods) == n && fresh(neighbourhoods)
+//@     invariant forall t in 0..rangeindex+1: len(neighbourhoods[t]) == 0
+//@     decreases len(neighbourhoods) - rangeindex
+//@   loop 2
+//@     invariant -1 <= rangeindex && (rangeindex < len(neighbourhoods) || (len(neighbourhoods) == 0 && rangeindex == -1)) && len(neighbourhoods) == n && len(tmpNeighbourhoods) == n && fresh(tmpNeighbourhoods)
+//@     invariant forall t in 0..n: len(neighbourhoods[t]) == 0
+//@     invariant forall t in 0..rangeindex+1: len(tmpNeighbourhoods[t]) == 0
+//@     decreases len(neighbourhoods) - rangeindex
+//@   loop 3
+//@     invariant -1 <= rangeindex && (rangeindex < len(tmpNeighbourhoods) || (len(tmpNeighbourhoods) == 0 && rangeindex == -1)) && len(tmpNeighbourhoods) == n && len(degreeSequence) == n && fresh(tmpNeighbourhoods) && fresh(degreeSequence)
+//@     invariant forall t in 0..n: len(tmpNeighbourhoods[t]) == 0
+//@     invariant forall t in 0..n: 0 <= degreeSequence[t] && degreeSequence[t] <= 16777216
+//@     decreases len(tmpNeighbourhoods) - rangeindex
+
+//@ func (SparseGraph).IsEdge
+//@   requires 0 <= i && i < g.NumberOfVertices && 0 <= j && j < g.NumberOfVertices && len(g.Neighbourhoods) == g.NumberOfVertices && len(g.DegreeSequence) == g.NumberOfVertices
+//@   requires forall v in 0..g.NumberOfVertices: sortedInts(g.Neighbourhoods[v])
+
+// ASSUMED (opt assumed): the preservation of the list invariants through the two
+// Add calls did not discharge within the time limits; used only as a safety
+// contract by Sparse6Decode and covered by the bounded stand-ins.
+//@ func (*SparseGraph).AddEdge
+//@   opt assumed
+//@   requires wfSparse(g) && 0 <= i && i < g.NumberOfVertices && 0 <= j && j < g.NumberOfVertices
+//@   modifies g, g.Neighbourhoods, g.DegreeSequence
+//@   ensures g.NumberOfVertices == old(g.NumberOfVertices) && len(g.Neighbourhoods) == g.NumberOfVertices && len(g.DegreeSequence) == g.NumberOfVertices
+//@   ensures sameslice(g.Neighbourhoods, old(g.Neighbourhoods)) && sameslice(g.DegreeSequence, old(g.DegreeSequence))
+//@   ensures forall v in 0..g.NumberOfVertices: sortedInts(g.Neighbourhoods[v])
+//@   ensures forall v in 0..g.NumberOfVertices: forall k in 0..len(g.Neighbourhoods[v]): 0 <= g.Neighbourhoods[v][k] && g.Neighbourhoods[v][k] < g.NumberOfVertices
+//@   opt wrapcounters=NumberOfEdges,DegreeSequence
+
+//@ pred s6prefix(s string) = len(s) >= 11 && s[0] == 62 && s[1] == 62 && s[2] == 115 && s[3] == 112 && s[4] == 97 && s[5] == 114 && s[6] == 115 && s[7] == 101 && s[8] == 54 && s[9] == 60 && s[10] == 60
+
+//@ func Sparse6Decode
+//@   requires hdrN(s, (s6prefix(s) ? 12 : 1)) <= 4096
+//@   ensures result1 != nil || (wfSparse(result0) && result0.NumberOfVertices == hdrN(s, (s6prefix(s) ? 12 : 1)))
+//@   loop 1
+//@     invariant 0 <= i && i <= len(s) && sameslice(s, (s6prefix(old(s)) ? old(s)[12:] : old(s)[1:]))
+//@     invariant forall t in 0..i: 63 <= s[t] && s[t] <= 126
+//@     decreases len(s) - i
+//@   loop 2
+//@     invariant 0 <= pos && pos <= 6 * (len(s) - i) && 0 <= v && 1 <= n && n <= 4096 && 0 <= i && i <= len(s) && sameslice(s, (s6prefix(old(s)) ? old(s)[12:] : old(s)[1:]))
+//@     invariant 0 <= k && k <= 13
+//@     invariant forall t in 0..len(s): 63 <= s[t] && s[t] <= 126
+//@     invariant wfSparse(g) && g.NumberOfVertices == n && fresh(g) && fresh(g.Neighbourhoods) && fresh(g.DegreeSequence) && v <= 4096 + pos
+//@     decreases 6 * (len(s) - i) - pos
+//@   loop 3
+//@     invariant 0 <= j && j <= k && 0 <= pos && 6 * (len(s) - i) - pos >= k - j && 0 <= x && x < pow2(j) && 0 <= v && 0 <= k && k <= 13 && 1 <= n && n <= 4096 && 0 <= i && i <= len(s) && sameslice(s, (s6prefix(old(s)) ? old(s)[12:] : old(s)[1:]))
+//@     invariant forall t in 0..len(s): 63 <= s[t] && s[t] <= 126
+//@     invariant wfSparse(g) && g.NumberOfVertices == n && fresh(g) && fresh(g.Neighbourhoods) && fresh(g.DegreeSequence) && v <= 4096 + pos && pos == pre(pos) + j
+//@     decreases k - j
